@@ -26,7 +26,8 @@ def run(chk):
         "must reach the returned value (or a field/element of the returned object); sibling comparison of all concrete "
         "Heff0/Heff1/Heff2 of the <bra|op|ket> environment family (each return multiplied by self.op.factor), of Env_sum (sum "
         "over members) and of the projection overlaps; exact rational identity for the phase/modulus split in __mul__. A "
-        "forgotten factor is invisible to tests with unit-factor operands and wrong for all others.")
+        "forgotten factor is invisible to tests with unit-factor operands and wrong for all others."
+        " zipper is analysed once per value of `normalize` on a CFG specialised on that parameter (the MPO's factor is multiplied in on every path, no store overwrites the factor, normalize=True resets it); sector charges read from a leg must be weighted by that leg's signature; conjugation typing of every contraction operand in the overlap recursions (bra conjugated, ket/operator not).")
     chk.trusted_base = ["python ast parser", "exact rational arithmetic sa/core/poly.py"]
     chk.rule("FF1", "the norm factor of every operand reaches the result", floor=18)
     chk.rule("FF2", "sibling agreement: every concrete Heff of the 3-layer family carries self.op.factor; Env_sum sums members", floor=15)
